@@ -43,6 +43,7 @@ type ClientReg struct {
 	Skew        time.Duration
 	IDTLifetime time.Duration
 	Assertion   bool                        // IDTokenUserinfoClaimsAssertion
+	Audience    []string                    // resource servers the client's tokens are meant for (empty: the client itself)
 	MethodUnset bool                        // AuthMethod() answers the empty string (no method registered: client_secret_basic by default)
 	Keys        map[string]*jose.JSONWebKey // public keys by kid (private_key_jwt / jwt-bearer)
 	ExtraScopes []string
@@ -167,12 +168,22 @@ type AuthRequest struct {
 	MaxAge       *uint
 	Prompt       []string
 	LoginHint    string
+	Aud          []string // resource servers of the client's registration (empty: the client itself)
 }
 
-func (a *AuthRequest) GetID() string                         { return a.ID }
-func (a *AuthRequest) GetACR() string                        { return "" }
-func (a *AuthRequest) GetAMR() []string                      { return amr(a.IsDone) }
-func (a *AuthRequest) GetAudience() []string                 { return []string{a.Client} }
+func (a *AuthRequest) GetID() string         { return a.ID }
+func (a *AuthRequest) GetACR() string        { return "" }
+func (a *AuthRequest) GetAMR() []string      { return amr(a.IsDone) }
+func (a *AuthRequest) GetAudience() []string { return spare(a.Aud, a.Client) }
+
+// spare: the audience as a storage hands it out - the client itself unless the registration names resource servers - in a slice that
+// has spare capacity (as slices that come out of a database driver or a pool often do)
+func spare(aud []string, client string) []string {
+	if len(aud) == 0 {
+		aud = []string{client}
+	}
+	return append(make([]string, 0, len(aud)+4), aud...)
+}
 func (a *AuthRequest) GetAuthTime() time.Time                { return a.AuthTime }
 func (a *AuthRequest) GetClientID() string                   { return a.Client }
 func (a *AuthRequest) GetCodeChallenge() *oidc.CodeChallenge { return a.Challenge }
@@ -528,6 +539,9 @@ func (s *Store) CreateAuthRequest(ctx context.Context, r *oidc.AuthRequest, user
 		HintSubject: userID, SessionState: s.SessionState, MaxAge: r.MaxAge, Prompt: slices.Clone([]string(r.Prompt)),
 		LoginHint: r.LoginHint,
 	}
+	if c, ok := s.Clients[r.ClientID]; ok {
+		a.Aud = c.Audience
+	}
 	if r.CodeChallenge != "" {
 		m := oidc.CodeChallengeMethodPlain
 		if r.CodeChallengeMethod == oidc.CodeChallengeMethodS256 {
@@ -622,7 +636,7 @@ func (s *Store) DeleteAuthRequest(ctx context.Context, id string) error {
 
 func (s *Store) newToken(req op.TokenRequest, refreshID string) *Token {
 	t := &Token{
-		ID: s.nextID("at"), Subject: req.GetSubject(), Audience: slices.Clone(req.GetAudience()),
+		ID: s.nextID("at"), Subject: req.GetSubject(), Audience: spare(req.GetAudience(), ""),
 		Scopes: slices.Clone(req.GetScopes()), Expiry: time.Now().Add(s.ATLifetime), RefreshID: refreshID,
 	}
 	if s.BornExpired {
@@ -671,7 +685,7 @@ func (s *Store) CreateAccessAndRefreshTokens(ctx context.Context, req op.TokenRe
 	}
 	s.mu.Lock()
 	defer s.mu.Unlock()
-	nr := &Refresh{ID: s.nextID("rt"), Subject: req.GetSubject(), Audience: slices.Clone(req.GetAudience()),
+	nr := &Refresh{ID: s.nextID("rt"), Subject: req.GetSubject(), Audience: spare(req.GetAudience(), ""),
 		Scopes: slices.Clone(req.GetScopes()), Live: true}
 	switch r := req.(type) {
 	case op.AuthRequest:
